@@ -206,6 +206,49 @@ R.contract(
     max_paths=40000,
 )
 
+# ------------------------------------------------------------------------------------------------- lookup by path + method: the cached operation, or a new one built with the effective parameters
+# (call-site views of the cache operations verified above: what was asked / inserted is recorded)
+for _k in ("insert_operation", "get_operation_by_id", "get_operation_by_reference", "get_operation_by_traversal_key"):
+    R.contracts[CA + "OperationCache." + _k].requires_are_representation_invariant = True
+g = R.contracts[CA + "OperationCache.get_operation_by_traversal_key"]
+g.returns = OneOf(NoneT, Opq("Operation"))
+g.call_ensures = {}
+g.effects = {"asked_key": "key", "cache_hit": "result"}
+ins = R.contracts[CA + "OperationCache.insert_operation"]
+ins.returns = NoneT
+ins.call_ensures = {}
+ins.modifies = {}
+ins.effects = {"inserted_op": "operation", "inserted_key": "traversal_key", "inserted_id": "operation_id"}
+mo = R.contracts[OAS + "BaseOpenAPISchema.make_operation"]
+mo.effects = dict(mo.effects, made_args="(path, method, parameters, raw, resolved, scope)")
+cop = R.contracts[OAS + "BaseOpenAPISchema._collect_operation_parameters"]
+cop.returns = Opq("Parameters")
+cop.call_ensures = {}
+cop.effects = {"collected_from": "(path_item, operation)", "collected": "result"}
+cop.modifies = {}
+PathItemM = DictOf(optional={"get": DictOf(optional={"operationId": Str}), "post": DictOf(optional={"operationId": Str})})
+SchemaM = Obj(OAS + "BaseOpenAPISchema", _operation_cache=Opq("OpCache"), resolver=Opq("Resolver"))
+R.contract(
+    OAS + "MethodMap._init_operation",
+    prop="C08",
+    args={"self": Obj(OAS + "MethodMap", _parent=Obj("spec:OperationMap", _schema=SchemaM), _scope=Str, _path=Str, _path_item=PathItemM), "method": Choice("get", "GET", "post", "Post", "delete")},
+    ghost={"asked_key": None, "cache_hit": "not-asked", "inserted_op": None, "inserted_key": None, "inserted_id": "none", "made": [], "made_with": [], "made_args": None, "collected_from": None, "collected": None},
+    raises=["KeyError"],
+    ensures={
+        # schema[path][method] gives the SAME operation as every other lookup: the cache is consulted under (scope, path, lower-cased method) ...
+        "cache_consulted_under_the_traversal_key": "ghost('asked_key') == (self._scope, self._path, method.lower())",
+        "a_cached_operation_is_returned_as_is": "implies(ghost('cache_hit') is not None, result is ghost('cache_hit') and ghost('inserted_op') is None)",
+        # ... and a new one is built for THIS path and method from ITS definition with ITS effective parameters, and registered under the same key and its operationId
+        "a_new_operation_is_built_from_its_own_definition": "implies(ghost('cache_hit') is None, ghost('made_args')[0] == self._path and ghost('made_args')[1] == method.lower() and "
+                                                            "ghost('made_args')[3] is self._path_item[method.lower()] and ghost('made_args')[2] is ghost('collected') and "
+                                                            "ghost('collected_from')[0] is self._path_item and ghost('made_args')[5] == self._scope)",
+        "and_registered_under_the_same_key_and_its_operation_id": "implies(ghost('cache_hit') is None, ghost('inserted_op') is result and ghost('inserted_key') == (self._scope, self._path, method.lower()) and "
+                                                                  "same_id(ghost('inserted_id'), self._path_item[method.lower()].get('operationId')))",
+    },
+    replayable=False,  # (KeyError: unknown method, or a reference of the operation that cannot be resolved)
+)
+R.spec_funcs["same_id"] = lambda it, a, b: (a is None and b is None) if (a is None or b is None) else __import__("pyvc.ops", fromlist=["eq"]).eq(a, b)
+
 # ------------------------------------------------------------------------------------------------- security parameters: every active scheme that does not clash is added
 SEC = "schemathesis.specs.openapi.security:"
 SecDef = OneOf(DictOf(required={"type": Const("apiKey"), "name": Str, "in": Choice("header", "query")}), DictOf(required={"type": Const("http"), "scheme": Const("basic")}))
